@@ -34,6 +34,7 @@ class GenOpts(object):
         self.tail_focus = 0           # 1/n of schemas end with a (struct ending in greedy, struct ending in that struct) pair
         self.const_ref_bias = 6      # 1/n of sizes / discriminators refer to a constant when one fits
         self.intlike_bias = 5         # 1/n of integer members (sizers among them) are typed by a typedef (chain) of an integer
+        self.tiny_focus = 0           # 1/n of schemas get an array of dynamic structs that can be shorter than 4 bytes
         self.block_focus = 0          # 1/n of schemas get a struct of 3-5 blocks whose bound arrays find their sizers in any earlier block
         self.const_exprs = False      # constants / enumerators given as expressions over earlier names
         self.min_decls = 1
@@ -351,7 +352,28 @@ class _Builder(object):
             self.add_alias_chains()
         if self.o.block_focus and self.draw(st.integers(0, self.o.block_focus - 1)) == 0:
             self.add_multiblock_struct()
+        if self.o.tiny_focus and self.o.allow_ext and self.draw(st.integers(0, self.o.tiny_focus - 1)) == 0:
+            self.add_tiny_dynamic()
         return Schema(self.decls)
+
+    def add_tiny_dynamic(self):
+        """A dynamic struct whose encoding can be 1-3 bytes (1- or 2-byte sizer, 1- or 2-byte elements, alignment below
+        4) as the element of a dynamic / greedy array that ends its message: many elements in few bytes."""
+        tiny = self.fresh('S')
+        sizer_t = self.draw(st.sampled_from(['u8', 'u8', 'u16', 'i8']))
+        elem_t = self.draw(st.sampled_from(['u8', 'i8', 'u16'] if sizer_t != 'u16' else ['u8', 'u16', 'i16']))
+        self.decls.append(Struct(tiny, [Member('n', sizer_t), Member('x', elem_t, EXTARR, sizer='n')]))
+        self.stiff[tiny] = DYNAMIC
+        self.vec[tiny] = False
+        holder = self.fresh('S')
+        members = []
+        if self.draw(st.booleans()):
+            members.append(Member('hd', self.draw(st.sampled_from(['u8', 'u16', 'u32']))))
+        greedy = self.o.allow_greedy and self.draw(st.integers(0, 3)) == 0
+        members.append(Member('ts', tiny, GREEDY if greedy else DYNARR))
+        self.decls.append(Struct(holder, members))
+        self.stiff[holder] = UNLIMITED if greedy else DYNAMIC
+        self.vec[holder] = False
 
     def add_multiblock_struct(self):
         """A struct of 3-5 blocks (each closed by a dynamic field).  Arrays bound to a sizer (`T x<@n>`) pick the sizer
